@@ -21,11 +21,11 @@ PAIRS = [
  ('dev_headers',  dict(flavour='dev')),
 ]
 
-def pair_case(fam, name, extra, entry_defs, cname, tier, witness=False):
-    oa = dict(BASE, fnprefix='A_', prefix='A_')
-    ob = dict(BASE, fnprefix='B_', prefix='B_'); ob.update({k: v for k, v in extra.items() if not k.startswith('_')})
+def pair_case(fam, name, extra, entry_defs, cname, tier, witness=False, base_extra=None):
+    oa = dict(BASE, fnprefix='A_', prefix='A_'); oa.update(base_extra or {})
+    ob = dict(BASE, fnprefix='B_', prefix='B_'); ob.update(base_extra or {}); ob.update({k: v for k, v in extra.items() if not k.startswith('_')})
     if name == 'sublimit3': pass
-    fa = fixture('C15', fam, oa, tag='A')
+    fa = fixture('C15', fam, oa, tag='A' + ('_' + name if base_extra else ''))
     fb = fixture('C15', fam, ob, tag='B_' + name)
     defs = ['VF_TABLES="%s"' % fa['tables'], 'CB_KINDS=0x9e'] + entry_defs
     logb = any(f in ob.get('features', []) for f in ('LOG_INTERFACE', 'VERBOSE_DEBUG_LOG'))
@@ -56,6 +56,12 @@ def cases(tier):
             if name == 'dev_headers' and ir_identical(fa, fb):
                 c.meta['ir_identical_modulo_metadata'] = True
             L.append(c)
+    # both sides with plans: payload type / task-capacity headroom must not change how plans run (symbolic plan, succeed/fail)
+    pb = dict(features=['PLANS'], taskcap=3, callbacks=['guard', 'life', 'update1', 'select', 'plan'], act=['update'], kinds=0x0e)
+    for name, extra in [('plans_payload', dict(payload='u32'))] + ([('plans_taskcap', dict(taskcap=5)), ('plans_history', dict(features=['PLANS', 'TRANSITION_HISTORY']))] if tier == 'thorough' else []):
+        c, fa, fb = pair_case(fam, name, extra, ['ENTRY=1', 'CB_BUDGET=0', 'WITH_PLAN', 'CB_KINDS=0x0e'], 'plan_update', tier, witness=True, base_extra=pb)
+        c.unwindset = [(r'vf_plan_|PlanT|CPlanT|updatePlan|clearTasks', 8)] + c.unwindset
+        L.append(c)
     if tier == 'thorough':
         for name, extra in [p for p in PAIRS if p[0] in ('plans', 'all', 'logger_on')]:
             c, fa, fb = pair_case('foroot', name, extra, ['ENTRY=2', 'KIND=1', 'CB_BUDGET=1'], 'imm1', tier)
@@ -68,5 +74,6 @@ def run(tier, seed):
         'product program: the same generated machine is compiled under configuration A (base) and B (base + ONE optional feature / the all-on set / the split development headers), both translated with symbol prefixes and linked into harness/c15.c; one symbolic Inv pre-configuration is written into both, one API entry runs on each with the same per-(state,callback) answers (approve/cancel/request any state), then callback sequences, fork arrays, isActive/isResumable answers and queue length are compared',
         'pairs = base vs each single feature (not the 2^n lattice of combinations) + all-on + header flavour; quick runs a subset of pairs and entries, thorough all pairs x {update, immediateChangeTo, immediateResume, reset} and a second fixture',
         'the header-flavour pair is additionally compared at IR level (identical IR modulo metadata is recorded in the evidence)',
-        'features whose API is only reachable when enabled (plan edits, save/load, replay, utilize/randomize) are not exercised here: the shared decision stream is restricted to the common subset',
+        'plan pairs: both sides with plans enabled and the same symbolic plan (<= 2 tasks, cyclic ones included), update callbacks may succeed()/fail(): payload type, task capacity and history must not change how the plan runs',
+        'features whose API is only reachable when enabled (plan edits on the plan-less side, save/load, replay, utilize/randomize) are not exercised here: the shared decision stream is restricted to the common subset',
         'callbacks: guards approve/cancel/substitute, update requests; CB_BUDGET 1; request kinds changeTo/restart/resume/select/schedule'])
